@@ -2,7 +2,8 @@
 # Model of the unified-diff text encoding (C30)
 
 Source modelled: `crates/radicle-cli/src/git/unified_diff.rs` as on `/repo` main, i.e. *with*
-`fix: cli: keep trailing whitespace of diff lines when encoding` and the hunk-header fix:
+`fix: cli: keep trailing whitespace of diff lines when encoding` (60c76fb) and
+`fix: cli: keep trailing whitespace of the hunk header when encoding` (050b476):
 
 * `Encode`/`Decode` for `HunkHeader`;
 * `Encode`/`Decode` for `Modification` (a diff line);
